@@ -228,10 +228,10 @@ def run(prop, tier, seed, spec, known, scratch, only, replay, t0):
         extra_pk = spec.get("extra_packages", [])
         json.dump({"repo": REPO, "packages": [pk] + [e for e in extra_pk if e != pk], "harness_dir": HDIR, "workers": int(os.environ.get("VERIF_WORKERS", "16")),
                    "harnesses": cfgs, "out": outp, "samples": 4 * len(cfgs), "solver": spec.get("solver", "z3-new"),
-                   "time_limit_s": int(spec.get("engine_time_limit_s", {}).get(tier, 2400 if tier == "thorough" else 600)),
+                   "time_limit_s": int(spec.get("engine_time_limit_s", {}).get(tier, 2400 if tier == "thorough" else 1200)),
                    "path_limit_s": int(spec.get("path_limit_s", 120)),
                    "solver_timeout_ms": int(spec.get("solver_timeout_ms", 60000 if tier == "thorough" else 30000))}, open(cfgp, "w"))
-        limit = int(spec.get("time_limit_s", {}).get(tier, 3000 if tier == "thorough" else 900)) if isinstance(spec.get("time_limit_s"), dict) else (3600 if tier == "thorough" else 900)
+        limit = int(spec.get("time_limit_s", {}).get(tier, 3000 if tier == "thorough" else 1500)) if isinstance(spec.get("time_limit_s"), dict) else (3600 if tier == "thorough" else 1500)
         try:
             r = subprocess.run([GOSYM, "-config", cfgp], env=GOENV, capture_output=True, text=True, timeout=limit)
         except subprocess.TimeoutExpired:
